@@ -5,6 +5,7 @@ import (
 	"go/ast"
 	"go/token"
 	"go/types"
+	"strings"
 
 	"dstverif/load"
 )
@@ -17,6 +18,16 @@ type restoreX struct {
 	out  types.Object // allocated ast node
 	recv types.Object // r
 	evs  []Event
+	// cursor snapshots: locals holding the cursor (plus a pending advance) — `from := r.cursor`,
+	// `to := from + token.Pos(n.Length)`; nAdv counts advances emitted so far
+	snap    map[types.Object]cursorSnap
+	nAdv    int
+	pending map[types.Object][]Event // position stores of a not-yet-applied `to`
+}
+
+type cursorSnap struct {
+	adv  int
+	plus ast.Expr // nil: the cursor itself; else cursor + plus
 }
 
 // ExtractRestore extracts the restore sibling.
@@ -30,11 +41,16 @@ func ExtractRestore(c *Ctx) (*Sibling, error) {
 	for _, tn := range s.Order {
 		cs := s.Cases[tn]
 		x := &restoreX{c: c, n: cs.NObj, recv: recv}
+		c.ComputeSubst(cs.Clause.Body, restoreMutable)
+		c.ComputeCondLocals(cs.Clause.Body)
 		x.stmts(cs.Clause.Body, gctx{})
+		c.Subst = nil
 		cs.Events = x.evs
 	}
 	return s, nil
 }
+
+var restoreMutable = map[string]bool{"cursor": true, "cursorAtNewLine": true, "lines": true, "comments": true}
 
 // ExtractRestoreIdent extracts the SelectorExpr-producing tail of restoreIdent as a pseudo case.
 func ExtractRestoreIdent(c *Ctx) (*Case, error) {
@@ -48,7 +64,9 @@ func ExtractRestoreIdent(c *Ctx) (*Case, error) {
 		nobj = c.Info.Defs[fd.Type.Params.List[0].Names[0]]
 	}
 	x := &restoreX{c: c, n: nobj, recv: recv}
+	c.ComputeSubst(fd.Body.List, restoreMutable)
 	x.stmts(fd.Body.List, gctx{})
+	c.Subst = nil
 	return &Case{Type: "Ident→SelectorExpr", Events: x.evs, Pos: fd.Pos(), NObj: nobj}, nil
 }
 
@@ -63,6 +81,29 @@ func (x *restoreX) emit(e Event, g gctx, pos token.Pos) {
 	g.apply(&e)
 	e.Pos = pos
 	x.evs = append(x.evs, e)
+	if e.Kind == KAdvance {
+		x.nAdv++
+	}
+}
+
+// snapOf resolves an expression to a cursor snapshot: r.cursor itself, a snapshot local, or
+// <snapshot> + token.Pos(E).
+func (x *restoreX) snapOf(e ast.Expr) (cursorSnap, bool) {
+	if x.isRecvField(e, "cursor") {
+		return cursorSnap{adv: x.nAdv}, true
+	}
+	if id, ok := e.(*ast.Ident); ok {
+		sn, ok := x.snap[x.c.ObjOf(id)]
+		return sn, ok
+	}
+	if be, ok := e.(*ast.BinaryExpr); ok && be.Op == token.ADD {
+		if base, ok := x.snapOf(be.X); ok && base.plus == nil {
+			if conv, ok := be.Y.(*ast.CallExpr); ok && len(conv.Args) == 1 && x.c.isTokenPosType(conv.Fun) {
+				return cursorSnap{adv: base.adv, plus: be.Y}, true
+			}
+		}
+	}
+	return cursorSnap{}, false
 }
 
 // isCursor reports whether e is r.cursor.
@@ -119,6 +160,34 @@ func (x *restoreX) stmt(s ast.Stmt, g gctx) {
 			return
 		}
 		x.other(s, g)
+	case *ast.SwitchStmt:
+		// tagless switch: an if / else-if chain
+		if s.Tag != nil || s.Init != nil {
+			x.other(s, g)
+			return
+		}
+		prev := g
+		for _, cl := range s.Body.List {
+			cc := cl.(*ast.CaseClause)
+			if cc.List == nil {
+				continue
+			}
+			var conds []string
+			for _, e := range cc.List {
+				conds = append(conds, x.c.ExprStr(e))
+			}
+			cond := strings.Join(conds, " || ")
+			if len(conds) > 1 {
+				cond = "(" + cond + ")"
+			}
+			x.stmts(cc.Body, prev.with(cond, false))
+			prev = prev.with(cond, true)
+		}
+		for _, cl := range s.Body.List {
+			if cc := cl.(*ast.CaseClause); cc.List == nil {
+				x.stmts(cc.Body, prev)
+			}
+		}
 	case *ast.BlockStmt:
 		x.stmts(s.List, g)
 	case *ast.DeclStmt, *ast.EmptyStmt:
@@ -191,6 +260,13 @@ func (x *restoreX) tracked(e ast.Expr) bool {
 
 func (x *restoreX) assign(s *ast.AssignStmt, g gctx) {
 	c := x.c
+	if len(s.Lhs) == len(s.Rhs) && len(s.Lhs) > 1 {
+		// tuple assignment: a, b = x, y — the right-hand sides here are side-effect free or single calls
+		for i := range s.Lhs {
+			x.assign(&ast.AssignStmt{Lhs: []ast.Expr{s.Lhs[i]}, TokPos: s.TokPos, Tok: s.Tok, Rhs: []ast.Expr{s.Rhs[i]}}, g)
+		}
+		return
+	}
 	if len(s.Lhs) != 1 || len(s.Rhs) != 1 {
 		x.other(s, g)
 		return
@@ -200,7 +276,7 @@ func (x *restoreX) assign(s *ast.AssignStmt, g gctx) {
 	// out := &ast.T{}
 	if s.Tok == token.DEFINE {
 		if id, ok := lhs.(*ast.Ident); ok {
-			if tn, ok := c.allocOf(rhs); ok && id.Name == "out" {
+			if tn, ok := c.allocOf(rhs); ok && x.out == nil {
 				x.out = c.Info.Defs[id]
 				x.emit(Event{Kind: KAlloc, Field: tn}, g, s.Pos())
 				return
@@ -220,12 +296,35 @@ func (x *restoreX) assign(s *ast.AssignStmt, g gctx) {
 				}
 			}
 		}
+		if id, ok := lhs.(*ast.Ident); ok {
+			if sn, ok := x.snapOf(rhs); ok {
+				if x.snap == nil {
+					x.snap = map[types.Object]cursorSnap{}
+				}
+				x.snap[c.Info.Defs[id]] = sn
+				x.emit(Event{Kind: KOther, Expr: id.Name + " := cursor snapshot"}, g, s.Pos())
+				return
+			}
+		}
 		x.other(s, g)
 		return
 	}
 
 	// r.cursor += ...
 	if x.isRecvField(lhs, "cursor") {
+		// r.cursor = <snapshot + token.Pos(E)> taken at the current cursor is `r.cursor += token.Pos(E)`
+		if s.Tok == token.ASSIGN {
+			if sn, ok := x.snapOf(rhs); ok && sn.plus != nil && sn.adv == x.nAdv {
+				x.cursorAssign(&ast.AssignStmt{Lhs: s.Lhs, TokPos: s.TokPos, Tok: token.ADD_ASSIGN, Rhs: []ast.Expr{sn.plus}}, sn.plus, g)
+				if id, ok := rhs.(*ast.Ident); ok {
+					for _, ev := range x.pending[c.ObjOf(id)] {
+						x.emit(ev, g, s.Pos())
+					}
+					delete(x.pending, c.ObjOf(id))
+				}
+				return
+			}
+		}
 		x.cursorAssign(s, rhs, g)
 		return
 	}
@@ -328,7 +427,7 @@ func (c *Ctx) isTokenPosType(e ast.Expr) bool {
 
 // tokenExpr normalises a token expression: token.X constants as "token.X", field reads as
 // "n.F", function literals printed.
-func (x *restoreX) tokenExpr(e ast.Expr) string { return x.c.ExprStr(e) }
+func (x *restoreX) tokenExpr(e ast.Expr) string { return x.c.TokenStr(e) }
 
 func (x *restoreX) outStore(s *ast.AssignStmt, field string, rhs ast.Expr, g gctx) {
 	c := x.c
@@ -336,6 +435,23 @@ func (x *restoreX) outStore(s *ast.AssignStmt, field string, rhs ast.Expr, g gct
 	if x.isRecvField(rhs, "cursor") {
 		x.emit(Event{Kind: KPosStore, Field: field, Expr: "cursor"}, g, s.Pos())
 		return
+	}
+	if id, ok := rhs.(*ast.Ident); ok {
+		if sn, ok := x.snap[c.ObjOf(id)]; ok {
+			switch {
+			case sn.plus == nil && sn.adv == x.nAdv:
+				x.emit(Event{Kind: KPosStore, Field: field, Expr: "cursor"}, g, s.Pos())
+			case sn.plus != nil && sn.adv == x.nAdv:
+				// the value the cursor will have after the pending advance: emitted right after it
+				if x.pending == nil {
+					x.pending = map[types.Object][]Event{}
+				}
+				x.pending[c.ObjOf(id)] = append(x.pending[c.ObjOf(id)], Event{Kind: KPosStore, Field: field, Expr: "cursor"})
+			default:
+				x.emit(Event{Kind: KOpaque, Field: field, Expr: "position taken from a stale cursor snapshot " + id.Name}, g, s.Pos())
+			}
+			return
+		}
 	}
 	if se, ok := rhs.(*ast.SelectorExpr); ok {
 		if cst, ok := c.Info.Uses[se.Sel].(*types.Const); ok && cst.Pkg() != nil && cst.Pkg().Path() == "go/token" && cst.Name() == "NoPos" {
